@@ -279,7 +279,9 @@ func c17Rows(c *Ctx, p *Prog) {
 		test.Call.Args[1]: {Op: "param", Name: "new", Type: test.Call.Args[1].Type()},
 	}
 	mk := func() *e6Interp {
-		return &e6Interp{Init: init, PureCall: func(f *types.Func) bool { return f.Pkg() != nil && (f.Pkg().Path() == "fmt" || f.Pkg().Path() == "math") }}
+		return &e6Interp{Init: init, PureCall: func(f *types.Func) bool {
+			return f.Pkg() != nil && (f.Pkg().Path() == "fmt" || f.Pkg().Path() == "math")
+		}}
 	}
 	outs, why := e6Enumerate(mk, start, nil, stop, 4096)
 	if why != "" {
@@ -291,7 +293,7 @@ func c17Rows(c *Ctx, p *Prog) {
 	n := 0
 	seenKeys := map[string]bool{}
 	for _, o := range outs {
-		errKind := ""  // "", "nil", "known", "other"
+		errKind := "" // "", "nil", "known", "other"
 		var sig, same, neg, notSpeed, noteEmpty, ran *bool
 		looseGate := false
 		wrongDirection := ""
